@@ -24,8 +24,18 @@ import (
 func zooSchema() *qgen.Schema {
 	s := &qgen.Schema{}
 	for _, e := range zoo.Entries {
-		s.Types = append(s.Types, qgen.TypeDesc{Name: e.Name, Kind: e.Kind, Tags: e.Tags, Rare: e.Bad,
-			Hot: !e.Bad && embedDepth(e.Type, 0) >= 3})
+		td := qgen.TypeDesc{Name: e.Name, Kind: e.Kind, Tags: e.Tags, Rare: e.Bad,
+			Hot: !e.Bad && embedDepth(e.Type, 0) >= 3}
+		if e.Kind == "slice" {
+			et := e.Type.Elem()
+			if et.Kind() == reflect.Pointer {
+				et = et.Elem()
+			}
+			if ee, ok := zoo.ByName(et.Name()); ok && ee.Type == et {
+				td.Elem = ee.Name
+			}
+		}
+		s.Types = append(s.Types, td)
 	}
 	return s
 }
